@@ -161,3 +161,22 @@ package proto
 // packet exactly when this says so.
 //@ contract (c ServerCode) Compressible() (r) props(C03)
 //@   ensures r == (c == 1 || c == 7 || c == 8) {data-totals-and-extremes-blocks-are-compressed-nothing-else}
+
+//@ -- the server-side decoder of a Query packet (used by servers built on this library): safety,
+//@ -- failure propagation, and: every list item is decoded into a FRESH value (Setting.Decode leaves
+//@ -- its receiver untouched when it meets the empty terminator key, so a reused value would never
+//@ -- show the terminator and the list would never end)
+//@ contract (q *Query) DecodeAware(r, version) (err) props(C06,C07,C08,C17)
+//@   requires q != nil && r != nil
+//@   modifies all(q), r.pos, r.failed, r.b.Buf
+//@ light (*ClientInfo).DecodeAware
+//@ callsite (*Setting).Decode
+//@   assert len(s.Key) == 0 [C17] {each-setting-is-decoded-into-a-fresh-value}
+//@ callsite (*Parameter).Decode
+//@   assert len(p.Key) == 0 [C17] {each-parameter-is-decoded-into-a-fresh-value}
+//@ loop 0 ()
+//@   modifies all(q), r.pos, r.failed, r.b.Buf
+//@   invariant r.failed ==> old(r.failed)
+//@ loop 1 ()
+//@   modifies all(q), r.pos, r.failed, r.b.Buf
+//@   invariant r.failed ==> old(r.failed)
